@@ -5,6 +5,7 @@ package main
 
 import (
 	"encoding/json"
+	"expvar"
 	"fmt"
 	"io"
 	"math/rand"
@@ -332,6 +333,45 @@ func (mgrFamily) Exec(c *hc.Case) {
 			c.Viol = append(c.Viol, hc.Violation{Clause: "for CreateCircuit calls with one name exactly one succeeds", Detail: fmt.Sprintf("the name of a create that panicked cannot be created afterwards: %v", err), AtOp: len(c.Ops)})
 		}
 		check(before+1, "after the retry succeeded")
+		// a RETAINED Manager.Var (what expvar.Publish keeps): each evaluation returns a value of its own -- one already
+		// handed out is not rewritten by the next evaluation
+		if fn, ok := m.Var().(expvar.Func); ok {
+			if r1, ok := fn().(map[string]interface{}); ok {
+				n1 := len(r1)
+				if _, err := m.CreateCircuit("var-late"); err == nil {
+					_ = fn()
+					if len(r1) != n1 {
+						c.Viol = append(c.Viol, hc.Violation{Clause: "C11: read-side diagnostics (Var/expvar) observe a consistent value", Detail: fmt.Sprintf("the value an evaluation of a retained Manager.Var returned (%d circuits) was rewritten by the next evaluation (%d circuits now)", n1, len(r1)), AtOp: len(c.Ops)})
+						c.Viol = append(c.Viol, hc.Violation{Clause: "AllCircuits holds exactly the successfully created circuits", Detail: fmt.Sprintf("Manager.Var: a value already handed out (%d circuits) changed when the Var was evaluated again (%d)", n1, len(r1)), AtOp: len(c.Ops)})
+					}
+				}
+			}
+		}
+		// a collector whose Var() panics once while Manager.Var renders (the caller recovers): the manager stays usable
+		{
+			pv := &panickyVar{}
+			var pc circuit.Config
+			pc.Metrics.Run = []circuit.RunMetrics{pv}
+			if _, err := m.CreateCircuit("var-panics", pc); err == nil {
+				func() {
+					defer func() { _ = recover() }()
+					_ = m.Var().String()
+				}()
+				done := make(chan error, 1)
+				go func() {
+					_, err := m.CreateCircuit("after-var-panic")
+					done <- err
+				}()
+				select {
+				case err := <-done:
+					if err != nil || m.GetCircuit("after-var-panic") == nil {
+						c.Viol = append(c.Viol, hc.Violation{Clause: "for CreateCircuit calls with one name exactly one succeeds", Detail: fmt.Sprintf("after a recovered panic inside Manager.Var's rendering: CreateCircuit of a new name failed: %v", err), AtOp: len(c.Ops)})
+					}
+				case <-time.After(3 * time.Second):
+					c.Viol = append(c.Viol, hc.Violation{Clause: "for CreateCircuit calls with one name exactly one succeeds", Detail: "after a collector's Var() panicked once during Manager.Var's rendering (recovered by the caller) CreateCircuit of a new name was still blocked 3 s later", AtOp: len(c.Ops)})
+				}
+			}
+		}
 	}
 	for t := range tags {
 		c.Tags = append(c.Tags, t)
@@ -383,4 +423,18 @@ func (mgrFamily) Emit(w io.Writer, f *hc.File) {
 	fmt.Fprintln(w, "].")
 	fmt.Fprintln(w, "Definition result := Eval vm_compute in mgr_mismatches cases.")
 	fmt.Fprintln(w, "Print result.")
+}
+
+// panickyVar is a run collector with a Var() that panics the first time it is rendered.
+type panickyVar struct {
+	inertRun
+	done bool
+}
+
+func (p *panickyVar) Var() expvar.Var {
+	if !p.done {
+		p.done = true
+		panic("collector's Var failed")
+	}
+	return expvar.Func(func() interface{} { return 1 })
 }
